@@ -186,7 +186,7 @@ pub struct Proved<G: AffineRepr> {
 /// Run the real prover.  Err(description) if no proof came out (error,
 /// panic, or handle divergence).
 pub fn prove_case<G: AffineRepr>(case: &SessionCase, record: bool) -> Result<(Proved<G>, ProveOut<G>), String> {
-    let bp_p = gens_with_history::<G>(&case.cap_p, 1);
+    let bp_p = gens_with_history::<G>(&case.cap_p, parties_for(&case.cap_p));
     let out = run_prover::<G>(
         &case.st,
         &bp_p,
@@ -257,7 +257,7 @@ pub fn deliver<G: AffineRepr>(
         }
         Ok(Ok(p)) => p,
     };
-    let bp = gens_with_history::<G>(cap, 1);
+    let bp = gens_with_history::<G>(cap, parties_for(cap));
     let v = run_verifier::<G>(st, commitments, &proof, &bp, false);
     RealVerdict {
         decoded: true,
@@ -340,6 +340,30 @@ pub fn adaptive_forgeries<G: AffineRepr>(
     let Some(q) = rf.sched.iter().position(|o| matches!(o, crate::refsession::SOp::Append { label, .. } if label == b"t_x_blinding")) else { return vec![] };
     let mut out = vec![];
     let d = G::ScalarField::from(7u64);
+    // coordinated pairs among the six vector commitments: P_i += D,
+    // P_j -= (c_i / c_j) D with the verification coefficients c = (x, x^2,
+    // x^3, ux, ux^2, ux^3) taken from the schedule of the ORIGINAL proof.  A
+    // correct verifier absorbs these points before deriving x and u, so the
+    // forgery changes the challenges and is rejected; one that fails to bind
+    // a point (for some circuit shape) accepts.
+    {
+        use ark_ec::CurveGroup;
+        use ark_ff::Field;
+        let (x, u) = (rf.x, rf.u);
+        let cs = [x, x * x, x * x * x, u * x, u * x * x, u * x * x * x];
+        let dpt = crate::refgens::ref_chain_cached::<G>(b'G', 3, 1)[0];
+        let mut k = 1000usize;
+        for i in 0..6 {
+            for j in (i + 1)..6 {
+                k += 1;
+                let Some(cj_inv) = cs[j].inverse() else { continue };
+                let mut f = pf.clone();
+                f.pts[i] = (f.pts[i].into_group() + dpt.into_group()).into_affine();
+                f.pts[j] = (f.pts[j].into_group() - dpt.into_group() * (cs[i] * cj_inv)).into_affine();
+                out.push((k, f.encode()));
+            }
+        }
+    }
     let mut seen = std::collections::BTreeSet::new();
     // r_candidates[i] = weight a clone taken right after sched[i] would give
     // (index 0 is a placeholder); only positions before the blinding
